@@ -68,8 +68,8 @@ Definition run_C01 (c : libcase) : verdict := with_rr c (Check_Norm.run_C01 c).
 Definition run_C02 (c : libcase) : verdict := with_rr c (Check_Norm.run_C02 c).
 
 (* ---------- C01, the reader against an independent account of what the note says -------------
-   [said]: per note (state name), the characters of every Text / Code / InlineHtml event of
-   pulldown-cmark itself (the reader's Options; outside raw HTML blocks - a documented drop - and
+   [said]: per note (state name), the characters of every Text / Code / InlineHtml event and the
+   destination of every link and image of pulldown-cmark itself (the reader's Options; outside raw HTML blocks - a documented drop - and
    outside the front matter, which sub-property 2 covers), in document order, white space removed.
    Sub-property 3: the blocks the reader returned say exactly that - the same characters in the
    same order: nothing dropped, doubled or moved by the reader before normalization starts. *)
@@ -81,18 +81,33 @@ Fixpoint squeeze (s : string) : string :=
   | String c r => if is_ws c then squeeze r else String c (squeeze r)
   end.
 
+(* what an inline says: its text, and for a link or image its destination (between the marks
+   \001 and \002) where it starts *)
+Definition mark1 : string := String (Ascii.ascii_of_nat 1) "".
+Definition mark2 : string := String (Ascii.ascii_of_nat 2) "".
+Fixpoint inline_says (i : inline) : string :=
+  let fix go (l : list inline) : string :=
+    match l with [] => "" | x :: r => inline_says x +++ go r end in
+  match i with
+  | Str s | Code s => s
+  | Math _ => ""
+  | Emph l | Strong l | Strike l => go l
+  | Link u _ _ l | Image u _ l => mark1 +++ u +++ mark2 +++ go l
+  end.
+Definition inlines_say (l : list inline) : string := sconcat (map inline_says l).
+
 Fixpoint block_says (b : dblock) {struct b} : string :=
   let fix go (l : list dblock) : string :=
     match l with [] => "" | x :: r => block_says x +++ go r end in
   let fix items (l : list (list dblock)) : string :=
     match l with [] => "" | it :: r => go it +++ items r end in
   match b with
-  | DPara _ l | DHeader _ _ l => inlines_plain_text l
+  | DPara _ l | DHeader _ _ l => inlines_say l
   | DCode _ _ t => t
   | DQuote _ bs => go bs
   | DOList its | DBList its => items its
   | DRule _ => ""
-  | DTable _ h _ rows => sconcat (map inlines_plain_text h) +++ sconcat (map (fun r => sconcat (map inlines_plain_text r)) rows)
+  | DTable _ h _ rows => sconcat (map inlines_say h) +++ sconcat (map (fun r => sconcat (map inlines_say r)) rows)
   end.
 Definition blocks_say (bs : list dblock) : string := squeeze (sconcat (map block_says bs)).
 
